@@ -1,4 +1,5 @@
 import ClaripyProofs.Lemmas.Solver.Structure
+import ClaripyProofs.Lemmas.Solver.SplitOk
 /-!
 # C15 — merge, combine and split have exactly their documented meaning
 
@@ -22,8 +23,8 @@ theorem C15_merge_ancestor_models (anc : List Con) (conds : List Con) (orc : Con
 theorem C15_combine_models (self : List Con) (others : List (List Con)) (a : Asg) :
     Models (combineCons self others) a ↔ Models self a ∧ ∀ o ∈ others, Models o a := combineCons_iff self others a
 
-/-- `_split_constraints` (bounded test, the general theorem `C15_split_partition` below is not yet proved):
-on these inputs the groups are variable-disjoint and every constraint index occurs exactly once -/
+/-- what `_split_constraints` must deliver, as a decidable check of its result: the groups are variable-disjoint, every
+constraint index occurs exactly once, each conjunct's variables lie in its group (`C15_split_partition`: it holds for every input) -/
 def splitOk (varss : List (List Var)) : Bool :=
   let (groups, concrete) := splitConstraints varss
   let idx := (groups.map (·.2)).flatten ++ concrete
@@ -38,8 +39,31 @@ theorem test_split_examples :
     splitOk [[0, 1], [2], [1, 3], [], [4, 2], [5]] = true ∧ splitOk [[0], [1], [0, 1], [2, 3], [3]] = true ∧
     splitOk [[], []] = true ∧ splitOk [[3, 2, 1, 0], [0], [4], [4, 5], [6]] = true := by decide +kernel
 
-/-- the full statement for split: for every list of constraints, the groups `_split_constraints` returns are
-pairwise variable-disjoint, contain every conjunct exactly once, and each conjunct's variables lie in its group -/
-def C15_split_partition : Prop := ∀ varss : List (List Var), splitOk varss = true
+/-- **C15 (split)**: for EVERY list of conjuncts (any number, any variables, any sharing), the groups
+`_split_constraints` returns are pairwise variable-disjoint, every conjunct occurs in exactly one of them (those without
+variables in the CONCRETE group), and each conjunct's variables lie in its group.  Proved through the loop invariant
+`SplitInv` (the two dicts describe a partition of the variables seen so far into classes, each class knows exactly the
+conjuncts over its variables) and a counting argument on the de-duplicated result. -/
+theorem C15_split_partition : ∀ varss : List (List Var), splitOk varss = true := by
+  intro varss
+  unfold splitOk
+  rw [splitConstraints_eq]
+  simp only [Bool.and_eq_true, List.all_eq_true, Bool.or_eq_true, beq_iff_eq, Bool.not_eq_eq_eq_not, Bool.not_true,
+    decide_eq_true_eq]
+  refine ⟨⟨?_, ?_, ?_⟩, ?_⟩
+  · intro g hg h hh
+    by_cases hgh : g = h
+    · exact Or.inl hgh
+    · right
+      intro v hv
+      have := groups_disjoint varss g h hg hh hgh v hv
+      simpa using this
+  · exact allIdx_length varss
+  · intro i hi
+    have : i ∈ allIdx varss := (mem_allIdx varss i).mpr (List.mem_range.mp hi)
+    simpa [allIdx] using this
+  · intro g hg i hi w hw
+    have := groups_cover_vars varss g hg i hi w hw
+    simpa using this
 
 end Claripy.Props.C15
